@@ -193,8 +193,8 @@ MCSLock::UnlockS(  //
   }
 
   auto *next = std::bit_cast<MCSLock *>(next_ptr);
-  if ((next->lock_.fetch_sub(kSLock, kRelease) & kSMask) == kNoLocks) {
-    tls_node_.reset(qnode);
+  if ((next->lock_.fetch_sub(kSLock, kRelease) & kLockMask) == kSLock) {
+    tls_node_.reset(qnode);  // this was the last holder of the group
   }
 }
 
